@@ -17,6 +17,7 @@ import sys
 import time
 
 ROOT = os.path.dirname(os.path.dirname(os.path.abspath(__file__)))
+REPLAYS = os.environ.get('VERIF_REPLAY_DIR') or os.path.join(ROOT, 'replays')      # development runs may redirect
 NPROC = int(os.environ.get('VERIF_NPROC', str(min(16, os.cpu_count() or 4))))
 
 
@@ -54,6 +55,12 @@ def replay(path):
     ctx.KF_ACTIVE = set(r.get('kf_active', []))
     from sv.engine.xh import run_native
     ob = next(o for o in mod.OBLIGATIONS if o.id == r['obligation'])
+    if r.get('needs_history'):
+        # the failure depends on what the same interpreter did before: re-run the recorded earlier calls (same obligation, the
+        # arguments of the paths explored before this one in its worker process), outcomes ignored, then the failing call
+        for h in r.get('history') or []:
+            run_native(ob.fn, h)
+        print(f"replay with history: {len(r.get('history') or [])} earlier calls of the same obligation re-run first")
     verdict, msg = run_native(ob.fn, r['args'])
     print(f"replay property={prop} obligation={ob.id} args={json.dumps(r['args'], ensure_ascii=False)}")
     if ob.describe:
@@ -277,22 +284,23 @@ def main(argv):
 
     # ---- replay every counterexample in a fresh native process
     violations = []
-    os.makedirs(os.path.join(ROOT, 'replays'), exist_ok=True)
+    os.makedirs(REPLAYS, exist_ok=True)
     seen = set()
     per_ob = {}
-    for old in os.listdir(os.path.join(ROOT, 'replays')):
+    for old in os.listdir(REPLAYS):
         if old.startswith(prop + '_') and old.endswith('.json'):
-            os.remove(os.path.join(ROOT, 'replays', old))
+            os.remove(os.path.join(REPLAYS, old))
     for i, c in enumerate(all_cex + suspects):
         key = (c['obligation'], json.dumps(c['args'], sort_keys=True))
         if key in seen or per_ob.get(c['obligation'], 0) >= 2:
             continue   # at most two replayed counterexamples per obligation; the rest are counted in the evidence
         seen.add(key)
         per_ob[c['obligation']] = per_ob.get(c['obligation'], 0) + 1
-        path = os.path.join(ROOT, 'replays', f"{prop}_{c['obligation']}_{len(seen)}.json")
+        path = os.path.join(REPLAYS, f"{prop}_{c['obligation']}_{len(seen)}.json")
         ob = next(o for o in obs if o.id == c['obligation'])
         rec = {'property': prop, 'obligation': c['obligation'], 'tier': tier, 'args': c['args'],
-               'message': c.get('message', ''), 'traced_verdict': c.get('traced', ''), 'kf_active': sorted(kf_active)}
+               'message': c.get('message', ''), 'traced_verdict': c.get('traced', ''), 'kf_active': sorted(kf_active),
+               'needs_history': False, 'history': c.get('history') or []}
         if ob.describe and ob.fn is not None:
             try:
                 rec['denotes'] = ob.describe(**c['args'])
@@ -301,9 +309,19 @@ def main(argv):
         with open(path, 'w') as f:
             json.dump(rec, f, indent=1, ensure_ascii=False)
         env = dict(os.environ)
-        env['PYTHONPATH'] = ROOT
+        env['PYTHONPATH'] = ROOT + (':' + env['PYTHONPATH'] if env.get('PYTHONPATH') else '')
         p = subprocess.run([sys.executable, '-m', 'sv.main', '--replay', path], cwd=ROOT, env=env,
                            capture_output=True, text=True, timeout=600)
+        if p.returncode != 1 and rec['history']:
+            # not reproducible on its own: a failure that needs the calls made earlier in the same interpreter (state leaking
+            # between calls) reproduces when those calls are re-run first, in a fresh process, natively
+            rec['needs_history'] = True
+            with open(path, 'w') as f:
+                json.dump(rec, f, indent=1, ensure_ascii=False)
+            p = subprocess.run([sys.executable, '-m', 'sv.main', '--replay', path], cwd=ROOT, env=env,
+                               capture_output=True, text=True, timeout=1800)
+            if p.returncode == 1:
+                rec['message'] = '[after %d earlier calls of the same obligation in one interpreter] ' % len(rec['history']) + rec['message']
         if p.returncode == 1:
             violations.append((path, rec))
         elif c.get('suspect'):
